@@ -25,6 +25,19 @@ def note_distribution(report, case):
     report.count('n_objs_%d' % len(case['objs']))
 
 
+def has_closed_leaf(case):
+    """Some leaf of the condition mentions no variable (a comparison / membership test over constants)."""
+    def walk(c):
+        if c[0] in ('and', 'or', 'band', 'bor'):
+            return any(walk(x) for x in c[1:])
+        if c[0] == 'not':
+            return walk(c[1])
+        if c[0] == 'sub':
+            return any(walk(x) for x in c[2:])
+        return not cond_vars(c)
+    return any(walk(c) for c in (case.get('cond') or []))
+
+
 class QueryJudge:
     """Generic judge: implementation == specification on the property's observable, under every
     configuration; model == implementation (Tier-A correspondence)."""
@@ -92,6 +105,11 @@ class QueryJudge:
                 rep.notes.append(f"model!=spec inside hypotheses on {case['id']}: {surface.case_sexp(case)[:400]}")
                 rep.count('MODEL_NE_SPEC_INSIDE_HYPOTHESES')
         l2 = drv.get('l2') if (case.get('quant') != 'the' and not case.get('forall') and not case.get('foralls') and not case.get('pform')) else None
+        if l2 is not None and has_closed_leaf(case):
+            # a leaf over constants only has a result cache WITHOUT keys, which the L2 machine does not model (its caches are
+            # those of leaves that mention a variable): rows are compared with the specification only
+            l2 = None
+            rep.count('l2_skipped_closed_leaf')
         for cfg_name, cfg in res['impl'].items():
             rep.count('cache_hits_' + cfg_name, cfg['hits'])
             if cfg.get('data_modified'):
@@ -217,7 +235,7 @@ def nontrivial_filter(case, res):
 
 def c01(report, rng, tier, findings):
     n = n_cases(tier, 320, 4000)
-    cfg = gen.Cfg(n_vars=(1, 1), n_objs=(2, 6), depth=3 if tier == 'quick' else 5, dup_domain=0.0)
+    cfg = gen.Cfg(n_vars=(1, 1), n_objs=(2, 6), depth=3 if tier == 'quick' else 5, dup_domain=0.0, closed=0.05)
     cases = [gen.gen_case(rng, cfg, f'c{i}') for i in range(n)]
     for c in cases:
         if rng.random() < 0.1:
